@@ -220,8 +220,10 @@ class ConditionLambdaInspection:
         self.text = text
 
 
-_DECORATOR_RE = re.compile(r"^\s*@[a-zA-Z_]")
-_DEF_CLASS_RE = re.compile(r"^\s*(async\s+def|def |class )")
+# (Blanks may follow the ``@`` and the expression of a decorator may be parenthesized; a line continuation may follow
+# the keyword of a definition. The lines which merely look like a decorator or a definition are sorted out by parsing.)
+_DECORATOR_RE = re.compile(r"^\s*@\s*[a-zA-Z_(]")
+_DEF_CLASS_RE = re.compile(r"^\s*(async\s+def|def|class)\b")
 
 
 class DecoratorInspection:
